@@ -6,6 +6,7 @@
   BklProofs/Lemmas/Interp.lean.
 -/
 import BklProofs.Lemmas.Interp
+import BklProofs.Lemmas.C14Codec
 namespace Bkl
 
 /-! ## the scanner -/
@@ -259,5 +260,254 @@ theorem C13_env_in_key (fuel : Nat) (docs : List Val) (root : Val) (ec : Vars) (
     | some w => cases w <;> rfl
 
 example : fget [("$env:X", Val.str "k")] ("$env:" ++ "X") = some (.str "k") := by decide
+
+/-! ## substitution is single-pass: substituted text is not rescanned, but a referenced string
+    value is itself evaluated (once) before it is substituted
+
+  `cx_substSeg ev` / `substSegChars ev` / `substStrChars sv` (BklProofs/Lemmas/C14Codec.lean) give
+  the text put in place of one segment: a literal is copied, `{r}` becomes `fmtV (ev r)`
+  (resp. the string `sv r`).  `inertStr s` says that `process2String` leaves `s` alone:
+  `interpBody s = none ∧ s.startsWith "$env:" = false ∧ s ≠ "$repeat"`. -/
+
+/-- **C13_nested_value** — what `process2String` does with each referenced value `v`
+    (`getWithVar`): a NON-string `v` (number, list, map …) is formatted with `%v` as it is —
+    nothing inside it is evaluated; a string `v = s2` is first evaluated by one more
+    `process2String` pass (so a referenced `$"…"` or `$env:…` string is replaced by ITS value,
+    with one unit of fuel less), and that result `ev r` is formatted.  The output is the
+    concatenation, in order, of the literals and these texts; nothing else happens to it. -/
+theorem C13_nested_value (fuel : Nat) (docs : List Val) (root : Val) (ec : Vars) (s : String)
+    (body : List Char) (hb : interpBody s = some body) (ev : List Char → Val)
+    (h : ∀ r, Seg.ref r ∈ interpSegs body →
+      ∃ v, getWithVar root docs ec (String.ofList r) = .ok v ∧
+        (((∀ s2, v ≠ .str s2) ∧ ev r = v) ∨
+          ∃ s2, v = .str s2 ∧ process2String fuel docs root ec s2 = .ok (ev r))) :
+    process2String (fuel + 1) docs root ec s =
+      .ok (.str (String.join ((interpSegs body).map (cx_substSeg ev)))) ∧
+    (String.join ((interpSegs body).map (cx_substSeg ev))).toList =
+      (interpSegs body).flatMap (substSegChars ev) := by
+  refine ⟨?_, toList_join_substSeg ev _⟩
+  rw [process2String_interp fuel docs root ec s body hb]
+  exact interpSpec_subst fuel docs root ec _ ev h
+
+/-- **C13_no_rescan** — substituted values are NOT rescanned: when every reference `{r}` of the
+    template resolves to a string `sv r` that is not itself a directive string (`inertStr`; its
+    characters are otherwise arbitrary — braces, `{b}`, quotes, newlines …), the result is
+    exactly the literals and the `sv r` concatenated in order, character for character. -/
+theorem C13_no_rescan (fuel : Nat) (docs : List Val) (root : Val) (ec : Vars) (s : String)
+    (body : List Char) (hb : interpBody s = some body) (sv : List Char → String)
+    (h : ∀ r, Seg.ref r ∈ interpSegs body →
+      getWithVar root docs ec (String.ofList r) = .ok (.str (sv r)) ∧ inertStr (sv r)) :
+    ∃ t, process2String (fuel + 1) docs root ec s = .ok (.str t) ∧
+      t.toList = (interpSegs body).flatMap (substStrChars sv) := by
+  obtain ⟨h1, h2⟩ := C13_nested_value fuel docs root ec s body hb (fun r => .str (sv r))
+    (fun r hr => ⟨.str (sv r), (h r hr).1,
+      Or.inr ⟨sv r, rfl, process2String_inert fuel docs root ec _ (h r hr).2⟩⟩)
+  exact ⟨_, h1, by rw [h2, substSegChars_str]⟩
+
+/-- the same for an explicitly given canonical segment list `segs` (literals `l_i`, references
+    `r_i`): `$"` ++ render segs ++ `"` evaluates to `l_0 s_1 l_1 … s_n l_n` -/
+theorem C13_no_rescan_canonical (fuel : Nat) (docs : List Val) (root : Val) (ec : Vars)
+    (segs : List Seg) (hc : Canonical segs) (sv : List Char → String)
+    (h : ∀ r, Seg.ref r ∈ segs →
+      getWithVar root docs ec (String.ofList r) = .ok (.str (sv r)) ∧ inertStr (sv r)) :
+    ∃ t, process2String (fuel + 1) docs root ec
+        (String.ofList ('$' :: '"' :: (render segs ++ ['"']))) = .ok (.str t) ∧
+      t.toList = segs.flatMap (substStrChars sv) := by
+  have hs : interpSegs (render segs) = segs := by
+    unfold interpSegs
+    rw [scanSegs_render segs hc [] _ (Nat.le_succ _) (Or.inl rfl)]
+    rfl
+  have := C13_no_rescan fuel docs root ec _ (render segs) (interpBody_wrap _) sv
+    (by rw [hs]; exact h)
+  rwa [hs] at this
+
+/-- non-vacuity: a canonical template, and a substituted string full of braces -/
+example : Canonical [.ref "a".toList, .lit " and ".toList, .ref "b".toList] ∧
+    inertStr "<{b}>" ∧ inertStr "}{\n{a}$\"" := by
+  refine ⟨by simp [Canonical, startsLit], ⟨by decide, by simp, by decide⟩,
+    ⟨by decide, by simp, by decide⟩⟩
+
+/-- The concrete document `a: "<{b}>", b: "B", c: $"{a} and {b}"`: the value of `a` contains
+    the brace text `{b}`; it is substituted verbatim, NOT expanded again. -/
+theorem C13_no_rescan_example (fuel : Nat) :
+    let root : Val := .map [("a", .str "<{b}>"), ("b", .str "B"), ("c", .str "$\"{a} and {b}\"")]
+    process2 (fuel + 3) [] root [] root =
+      .ok (.map [("a", .str "<{b}>"), ("b", .str "B"), ("c", .str "<{b}> and B")]) := by
+  intro root
+  have hin : ∀ (x : String), inertStr x → ∀ n, process2String n [] root [] x = .ok (.str x) :=
+    fun x hx n => process2String_inert n [] root [] x hx
+  have ia : inertStr "a" := ⟨by decide, by simp, by decide⟩
+  have ib : inertStr "b" := ⟨by decide, by simp, by decide⟩
+  have ic : inertStr "c" := ⟨by decide, by simp, by decide⟩
+  have iva : inertStr "<{b}>" := ⟨by decide, by simp, by decide⟩
+  have ivb : inertStr "B" := ⟨by decide, by simp, by decide⟩
+  have hga : getWithVar root [] [] "a" = .ok (.str "<{b}>") :=
+    getWithVar_simple_key _ _ _ _ _ isPlainRef_a (by decide) (by decide)
+  have hgb : getWithVar root [] [] "b" = .ok (.str "B") :=
+    getWithVar_simple_key _ _ _ _ _ cx_isPlainRef_b (by decide) (by decide)
+  have hc : process2String (fuel + 2) [] root [] "$\"{a} and {b}\"" = .ok (.str "<{b}> and B") := by
+    have hsegs : interpSegs "{a} and {b}".toList =
+        [.ref "a".toList, .lit " and ".toList, .ref "b".toList] := by decide
+    obtain ⟨h1, -⟩ := C13_nested_value (fuel + 1) [] root [] "$\"{a} and {b}\""
+      "{a} and {b}".toList (by decide)
+      (fun r => if r = "a".toList then .str "<{b}>" else .str "B")
+      (by
+        rw [hsegs]
+        intro r hr
+        simp only [List.mem_cons, Seg.ref.injEq, List.mem_nil_iff, or_false, reduceCtorEq,
+          false_or] at hr
+        rcases hr with rfl | rfl
+        · exact ⟨_, by simpa using hga, Or.inr ⟨_, rfl, by simpa using hin _ iva _⟩⟩
+        · exact ⟨_, by simpa using hgb, Or.inr ⟨_, rfl, by
+            rw [if_neg (by decide)]; exact hin _ ivb _⟩⟩)
+    rw [h1, hsegs]
+    exact congrArg Except.ok (by decide)
+  have hr : noRepeatEntries [("a", Val.str "<{b}>"), ("b", .str "B"), ("c", .str "$\"{a} and {b}\"")] := by
+    intro p hp m hm
+    simp only [List.mem_cons, List.mem_nil_iff, or_false] at hp
+    rcases hp with rfl | rfl | rfl <;> cases hm
+  show process2 (fuel + 3) [] root [] (.map _) = _
+  rw [process2_map_noRepeat _ _ _ _ _ (by decide) hr]
+  simp only [cx_process2MapTail, fget, if_false, show ("a" = "$encode") = False from by decide,
+    show ("b" = "$encode") = False from by decide, show ("c" = "$encode") = False from by decide,
+    show ("a" = "$decode") = False from by decide,
+    show ("b" = "$decode") = False from by decide, show ("c" = "$decode") = False from by decide,
+    show ("a" = "$value") = False from by decide,
+    show ("b" = "$value") = False from by decide, show ("c" = "$value") = False from by decide]
+  rw [process2Entries_eq]
+  simp only [evalEntries, evalEntry, cx_process2_str, hin _ ia, hin _ ib, hin _ ic, hin _ iva,
+    hin _ ivb, hc, e_ok_bind, e_pure_eq]
+  exact congrArg Except.ok (congrArg Val.map (by decide))
+
+/-- Contrast: when `a` is itself an interpolation, `a: $"<{b}>", b: "B", c: $"{a} and {b}"`,
+    the referenced value is evaluated first, so `c` becomes `<B> and B`. -/
+theorem C13_nested_value_example (fuel : Nat) :
+    let root : Val :=
+      .map [("a", .str "$\"<{b}>\""), ("b", .str "B"), ("c", .str "$\"{a} and {b}\"")]
+    process2 (fuel + 4) [] root [] root =
+      .ok (.map [("a", .str "<B>"), ("b", .str "B"), ("c", .str "<B> and B")]) := by
+  intro root
+  have hin : ∀ (x : String), inertStr x → ∀ n, process2String n [] root [] x = .ok (.str x) :=
+    fun x hx n => process2String_inert n [] root [] x hx
+  have ia : inertStr "a" := ⟨by decide, by simp, by decide⟩
+  have ib : inertStr "b" := ⟨by decide, by simp, by decide⟩
+  have ic : inertStr "c" := ⟨by decide, by simp, by decide⟩
+  have ivb : inertStr "B" := ⟨by decide, by simp, by decide⟩
+  have hga : getWithVar root [] [] "a" = .ok (.str "$\"<{b}>\"") :=
+    getWithVar_simple_key _ _ _ _ _ isPlainRef_a (by decide) (by decide)
+  have hgb : getWithVar root [] [] "b" = .ok (.str "B") :=
+    getWithVar_simple_key _ _ _ _ _ cx_isPlainRef_b (by decide) (by decide)
+  have ha : ∀ n, process2String (n + 1) [] root [] "$\"<{b}>\"" = .ok (.str "<B>") := by
+    intro n
+    have hsegs : interpSegs "<{b}>".toList = [.lit "<".toList, .ref "b".toList, .lit ">".toList] := by
+      decide
+    obtain ⟨h1, -⟩ := C13_nested_value n [] root [] "$\"<{b}>\"" "<{b}>".toList (by decide)
+      (fun _ => .str "B")
+      (by
+        rw [hsegs]
+        intro r hr
+        simp only [List.mem_cons, Seg.ref.injEq, List.mem_nil_iff, or_false, reduceCtorEq,
+          false_or] at hr
+        subst hr
+        exact ⟨_, by simpa using hgb, Or.inr ⟨_, rfl, hin _ ivb _⟩⟩)
+    rw [h1, hsegs]
+    exact congrArg Except.ok (by decide)
+  have hc : process2String (fuel + 3) [] root [] "$\"{a} and {b}\"" = .ok (.str "<B> and B") := by
+    have hsegs : interpSegs "{a} and {b}".toList =
+        [.ref "a".toList, .lit " and ".toList, .ref "b".toList] := by decide
+    obtain ⟨h1, -⟩ := C13_nested_value (fuel + 2) [] root [] "$\"{a} and {b}\""
+      "{a} and {b}".toList (by decide)
+      (fun r => if r = "a".toList then .str "<B>" else .str "B")
+      (by
+        rw [hsegs]
+        intro r hr
+        simp only [List.mem_cons, Seg.ref.injEq, List.mem_nil_iff, or_false, reduceCtorEq,
+          false_or] at hr
+        rcases hr with rfl | rfl
+        · exact ⟨_, by simpa using hga, Or.inr ⟨_, rfl, by simpa using ha (fuel + 1)⟩⟩
+        · exact ⟨_, by simpa using hgb, Or.inr ⟨_, rfl, by
+            rw [if_neg (by decide)]; exact hin _ ivb _⟩⟩)
+    rw [h1, hsegs]
+    exact congrArg Except.ok (by decide)
+  have hr : noRepeatEntries
+      [("a", Val.str "$\"<{b}>\""), ("b", .str "B"), ("c", .str "$\"{a} and {b}\"")] := by
+    intro p hp m hm
+    simp only [List.mem_cons, List.mem_nil_iff, or_false] at hp
+    rcases hp with rfl | rfl | rfl <;> cases hm
+  show process2 (fuel + 4) [] root [] (.map _) = _
+  rw [process2_map_noRepeat _ _ _ _ _ (by decide) hr]
+  simp only [cx_process2MapTail,
+    show fget [("a", Val.str "$\"<{b}>\""), ("b", .str "B"), ("c", .str "$\"{a} and {b}\"")]
+      "$encode" = none from by decide,
+    show fget [("a", Val.str "$\"<{b}>\""), ("b", .str "B"), ("c", .str "$\"{a} and {b}\"")]
+      "$decode" = none from by decide,
+    show fget [("a", Val.str "$\"<{b}>\""), ("b", .str "B"), ("c", .str "$\"{a} and {b}\"")]
+      "$value" = none from by decide]
+  rw [process2Entries_eq]
+  simp only [evalEntries, evalEntry, cx_process2_str, hin _ ia, hin _ ib, hin _ ic, ha (fuel + 2),
+    hin _ ivb, hc, e_ok_bind, e_pure_eq]
+  exact congrArg Except.ok (congrArg Val.map (by decide))
+
+/-- A referenced `$env:` string is evaluated too (to the variable's value), and THAT text is
+    again not rescanned: with `X = "{b}"`, `a: $env:X, b: "B"`, the string `$"{a}!"` is `{b}!`.
+    A referenced NON-string is formatted raw: with `l: [$env:X]`, `$"{l}"` is `[$env:X]`
+    (although the entry `l` itself evaluates to `["{b}"]`). -/
+theorem C13_nested_env_example (fuel : Nat) :
+    let root : Val := .map [("a", .str "$env:X"), ("b", .str "B"), ("l", .list [.str "$env:X"])]
+    let ec : Vars := [("$env:X", .str "{b}")]
+    process2String (fuel + 2) [] root ec "$\"{a}!\"" = .ok (.str "{b}!") ∧
+    process2String (fuel + 2) [] root ec "$\"{l}\"" = .ok (.str "[$env:X]") ∧
+    process2 (fuel + 2) [] root ec (.list [.str "$env:X"]) = .ok (.list [.str "{b}"]) := by
+  intro root ec
+  have hga : getWithVar root [] ec "a" = .ok (.str "$env:X") :=
+    getWithVar_simple_key _ _ _ _ _ isPlainRef_a (by decide) (by decide)
+  have hgl : getWithVar root [] ec "l" = .ok (.list [.str "$env:X"]) :=
+    getWithVar_simple_key _ _ _ _ _ cx_isPlainRef_l (by decide) (by decide)
+  have henv : ∀ n, process2String n [] root ec "$env:X" = .ok (.str "{b}") := by
+    intro n
+    rw [show "$env:X" = "$env:" ++ "X" from by decide, process2String_env]; rfl
+  refine ⟨?_, ?_, ?_⟩
+  · have hsegs : interpSegs "{a}!".toList = [.ref "a".toList, .lit "!".toList] := by decide
+    obtain ⟨h1, -⟩ := C13_nested_value (fuel + 1) [] root ec "$\"{a}!\"" "{a}!".toList (by decide)
+      (fun _ => .str "{b}")
+      (by
+        rw [hsegs]
+        intro r hr
+        simp only [List.mem_cons, Seg.ref.injEq, List.mem_nil_iff, or_false, reduceCtorEq,
+          or_false] at hr
+        subst hr
+        exact ⟨_, by simpa using hga, Or.inr ⟨_, rfl, henv _⟩⟩)
+    rw [h1, hsegs]
+    exact congrArg Except.ok (by decide)
+  · have hsegs : interpSegs "{l}".toList = [.ref "l".toList] := by decide
+    obtain ⟨h1, -⟩ := C13_nested_value (fuel + 1) [] root ec "$\"{l}\"" "{l}".toList (by decide)
+      (fun _ => .list [.str "$env:X"])
+      (by
+        rw [hsegs]
+        intro r hr
+        simp only [List.mem_singleton, Seg.ref.injEq] at hr
+        subst hr
+        exact ⟨_, by simpa using hgl, Or.inl ⟨fun s2 h => (by cases h), rfl⟩⟩)
+    rw [h1, hsegs]
+    exact congrArg Except.ok (by decide)
+  · rw [process2]
+    simp [popListMapValue, Val.isNull, cx_process2_str, henv, e_ok_bind, e_pure_eq]
+
+/-- The extra evaluation of a referenced string recurses with one unit of fuel less each time;
+    a string that references itself (`a: $"{a}"`) therefore ends in `circularRef`, for every
+    fuel — it is never substituted unevaluated. -/
+theorem C13_nested_self_reference (fuel : Nat) :
+    process2String fuel [] (.map [("a", .str "$\"{a}\"")]) [] "$\"{a}\"" = .error .circularRef := by
+  have hb : interpBody "$\"{a}\"" = some "{a}".toList := by decide
+  have hg : getWithVar (.map [("a", .str "$\"{a}\"")]) [] [] (String.ofList "a".toList)
+      = .ok (.str "$\"{a}\"") :=
+    getWithVar_simple_key _ _ _ _ _ (by simpa using isPlainRef_a) (by decide) (by decide)
+  induction fuel with
+  | zero => rw [process2String.eq_1]; simp only [hb]; rfl
+  | succ n ih =>
+    rw [process2String_interp n _ _ _ _ _ hb,
+      show interpSegs "{a}".toList = [.ref "a".toList] from by decide]
+    simp only [interpSpec, List.mapM_cons, List.mapM_nil, interpSeg, hg, ih]
+    rfl
 
 end Bkl
